@@ -4,9 +4,12 @@ import (
 	"context"
 	"fmt"
 	"io"
+	"log/slog"
 	"net/http"
 	"os"
 	"path/filepath"
+	"reservoir/logging"
+	"sync"
 	"testing"
 	"time"
 	"verifharness/internal/metricsx"
@@ -276,5 +279,53 @@ var subSwitch = ev.Register("switches-live",
 func TestSwitchesLive(t *testing.T) {
 	subSwitch.CheckSalt(t, 3, ev.N(40, 2000), func(t *rapid.T) Switch {
 		return Switch{Backend: rapid.SampledFrom([]string{"memory", "file"}).Draw(t, "backend"), Flips: rapid.SliceOfN(rapid.Bool(), 1, 5).Draw(t, "flips")}
+	})
+}
+
+// ---------------------------------------------------------------- the log level follows the setting
+
+type Levels struct {
+	Seq []string `json:"seq"`
+}
+
+var loggingOnce sync.Once
+var loggingCfg *config.Config
+
+var subLevel = ev.Register("log-level-follows",
+	"the process-wide logger (logging.Init) is attached to a configuration and receives 1-5 accepted logging.level updates, each followed by a short pause; oracle: afterwards the default logger is enabled exactly for records at or above the last level; non-trivial = >= 2 updates; distinct by level sequence",
+	func(c Levels, o *ev.Obs) *ev.Failure {
+		dir, _ := os.MkdirTemp("", "verif-c19l-")
+		defer os.RemoveAll(dir)
+		old, _ := os.Getwd()
+		os.MkdirAll(filepath.Join(dir, "var"), 0o755)
+		os.Chdir(dir)
+		defer os.Chdir(old)
+		loggingOnce.Do(func() {
+			loggingCfg = config.NewDefault()
+			px.SetBase(&loggingCfg.Logging.File, filepath.Join(os.TempDir(), fmt.Sprintf("verif-c19-log-%d.log", os.Getpid())))
+			logging.Init(loggingCfg)
+		})
+		defer os.Remove(loggingCfg.Logging.File.Read())
+		o.NonTrivial = len(c.Seq) >= 2
+		var last slog.Level
+		for _, l := range c.Seq {
+			if _, err := config.UpdatePartialFromConfig(loggingCfg, map[string]any{"logging": map[string]any{"level": l}}); err != nil {
+				return ev.Failf("level.update-rejected", "%v", err)
+			}
+			last.UnmarshalText([]byte(l))
+			time.Sleep(15 * time.Millisecond)
+		}
+		time.Sleep(20 * time.Millisecond)
+		for _, probe := range []slog.Level{slog.LevelDebug - 4, slog.LevelDebug, slog.LevelInfo, slog.LevelWarn, slog.LevelError, slog.LevelError + 4} {
+			if got, want := slog.Default().Enabled(context.Background(), probe), probe >= last; got != want {
+				return ev.Failf("level.not-followed", "levels %v: after the last update to %v a record at level %v is enabled=%v", c.Seq, last, probe, got)
+			}
+		}
+		return nil
+	})
+
+func TestLogLevelFollows(t *testing.T) {
+	subLevel.CheckSalt(t, 4, ev.N(40, 2000), func(t *rapid.T) Levels {
+		return Levels{Seq: rapid.SliceOfN(rapid.SampledFrom([]string{"DEBUG", "INFO", "WARN", "ERROR", "DEBUG-4", "ERROR+4"}), 1, 5).Draw(t, "levels")}
 	})
 }
